@@ -4,25 +4,25 @@ C32 — Flow aggregation conserves counts and emits each window once
 (goldmane/pkg/storage BucketRing). Property theorems over the model `CalicoVerif.Model.C32`.
 
 STATUS (honest).
-Proved for every history from `NewBucketRing` (any size/interval/options, any interleaving of
-AddFlow / Rollover with or without sink / EmitFlowCollections):
+Proved for every history from `NewBucketRing` (any size/interval/pushAfter/bucketsToAggregate, any
+interleaving of AddFlow / Rollover with or without sink / EmitFlowCollections):
 * the ring stays contiguous, hence every flow is sorted into exactly one bucket
   (`one_bucket_per_flow`), flows outside the history are dropped without effect;
 * the count stored for (key, bucket) equals the sum of the accepted flows of that key whose start
   time lies in that bucket (`window_eq_sum_accepted`, ghost log of accepted flows);
-* `List` returns for every key the sum of its windows inside the range (`list_count`), which for a
-  range that is exactly one retained bucket is the sum of the accepted flows of that bucket
-  (`query_eq_sum_retained_partial`). NOT proved: the same identification for ranges spanning several
-  buckets (needs "no stale / duplicate windows", which holds by window sortedness but is not proved).
-* emission: a window is only built if its first bucket is not pushed; every bucket of a collection
-  handed to the sink is pushed afterwards, so it is never again the first bucket of a built window
-  (`emit_at_most_once_partial`); a built collection carries for each key the sum of its windows inside
-  the collection's time window (`emitted_window_complete_partial`).
-`emit_at_most_once` in full (no bucket in two collections) is FALSE of the current code for ring
-configurations that violate `emitGuard` (witness below, replayed on the real code); the default
-goldmane configuration 242/30/20 satisfies the guard (`emitGuard_default`). That the guard implies
-non-overlapping windows is NOT proved (it is what the harness oracle checks on the real code: all
-double emissions observed are in configurations that violate the guard).
+* `List` returns for every key the sum of its windows inside the range (`list_eq_sum_windows`), which
+  for a range that is exactly one retained bucket is the sum of the accepted flows of that bucket
+  (`query_eq_sum_retained_partial`), and for ANY range is the sum over the retained buckets wholly inside
+  the range of the accepted flows of each bucket (`query_eq_sum_retained`; bucket granularity: a range
+  bound inside a bucket excludes that bucket, as the code does).
+* emission (after /repo 6722529): the walk terminates by its own test (`emit_walk_terminates`); every
+  collection handed to the sink consists of buckets that are not yet pushed, collections of one emission
+  are pairwise disjoint and never contain the head bucket, and all their buckets are pushed afterwards
+  (`emit_at_most_once`, `rollover_emit_at_most_once`): no bucket is handed to the sink twice; a built
+  collection carries for each key the sum of its windows inside the collection's time window
+  (`emitted_window_complete_partial`).
+KNOWN FINDING kept: late flows accepted into an already emitted window are counted by `List` but never
+emitted (`late_flow_accepted`, `late_flow_never_emitted`; AddFlow only logs a warning).
 -/
 namespace CalicoVerif.C32
 
@@ -165,6 +165,21 @@ theorem query_eq_sum_retained_partial (n : Nat) (interval now : Int) (pushAfter 
   rw [list_count _ _ _ x hx, range_one_bucket hg x.1 i hlt h0 h1]
   exact hg.q x.1 i hlt
 
+/-- `query_eq_sum_retained` (any range, `0` = unbounded as in the code): in every reachable state every row
+returned by `List` carries, for its key, the sum over the buckets still in the ring that lie wholly inside
+the requested range of the accepted flows whose start time falls into that bucket — i.e. the sum of the
+accepted flows of the range that are still retained, at bucket granularity. (Uses the extended invariant
+`QInv`: windows sorted by start, every window belongs to a ring bucket that lists its key — so `Rollover`
+drops exactly the windows of the bucket it resets and no stale window survives.) -/
+theorem query_eq_sum_retained (n : Nat) (interval now : Int) (pushAfter agg : Nat) (hn : 0 < n) (hi : 0 < interval)
+    (ops : List Op) (gte lt : Int) (x : Nat × Int × Int × Int) :
+    let s := grun (newRing n interval now pushAfter agg, []) ops
+    x ∈ s.1.list gte lt →
+    x.2.1 = ((List.range s.1.n).map (fun i =>
+      if bucketIn gte lt (s.1.bucket i) then logSum s.2 x.1 (s.1.bucket i).start (s.1.bucket i).stop else 0)).sum := by
+  intro s hx
+  exact list_eq_sum_buckets (grun_qinv (newRing_qinv n interval now pushAfter agg hn hi) ops) gte lt x hx
+
 /-! ## emission -/
 
 /-- PARTIAL at-most-once: every bucket of a collection handed to the sink is marked pushed, and a window
@@ -186,26 +201,70 @@ theorem emitted_window_complete_partial (r : Ring) (s e : Nat) (c : Coll) (h : r
     c.start = (r.bucket s).start ∧ c.stop = (r.bucket e).start ∧
     x = total ((r.wins k).filter (inRange c.start c.stop)) := maybeBuild_flows r s e c h k x hk
 
-/-- the default goldmane configuration (242 buckets, pushIndex 30, 20 buckets aggregated) satisfies the guard -/
-theorem emitGuard_default : emitGuard 242 30 20 = true := by decide
+/-! ## the emission walk: termination and at-most-once for EVERY configuration -/
 
-/-- the configurations of the counterexample / of the non-terminating walk violate it -/
-theorem emitGuard_witnesses : emitGuard 7 0 2 = false ∧ emitGuard 4 0 1 = false := by decide
+/-- Termination: the walk stops by its own test (`oldest < len(buckets)`, `oldest` growing by
+`bucketsToAggregate ≥ 1`); the fuel of the model (`n`) is never what stops it — any larger fuel gives the
+same collections. (For `bucketsToAggregate < 1` the code returns before the loop.) -/
+theorem emit_walk_terminates (r : Ring) (hagg : 1 ≤ r.agg) (fuel oldest s e : Nat) (h : r.n ≤ fuel + oldest) :
+    r.buildLoop2 fuel oldest s e = r.buildLoop2 (fuel + 1) oldest s e := buildLoop2_fuel r hagg fuel oldest s e h
 
-/-! ### `emit_at_most_once` is false of the current code (witness; replayed on the real BucketRing) -/
+theorem disjoint_symm {a b : List Nat} (h : ∀ i, i ∈ a → i ∉ b) : ∀ i, i ∈ b → i ∉ a := fun i hb ha => h i ha hb
+
+/-- `emit_at_most_once`, ALL ring sizes / intervals / pushAfter / bucketsToAggregate, all
+histories: every collection handed to the sink consists of ring buckets that are NOT yet pushed (and not
+the head bucket), no two collections of one emission share a bucket, and all their buckets are pushed
+afterwards. Pushed flags are only cleared when Rollover resets a bucket, so no bucket's flows are handed
+to the sink twice. -/
+theorem emit_at_most_once (n : Nat) (interval now : Int) (pushAfter agg : Nat) (hn : 0 < n) (hi : 0 < interval)
+    (ops : List Op) :
+    let r := (grun (newRing n interval now pushAfter agg, []) ops).1
+    (∀ c ∈ r.emit.2, ∀ i ∈ c.idxs,
+        i < r.n ∧ i ≠ r.head ∧ (r.bucket i).pushed = false ∧ (r.emit.1.bucket i).pushed = true) ∧
+    (r.emit.2.map (·.idxs)).Pairwise (fun a b => ∀ i, i ∈ a → i ∉ b) := by
+  intro r
+  have hh : HInv r := grun_hinv (newRing_hinv n interval now pushAfter agg hn hi) ops
+  have hd := built_disjoint r hh.hlt
+  constructor
+  · intro c hc i hi'
+    have hb := emit_sent_built r c hc
+    have h1 := hd.2 c hb i hi'
+    exact ⟨h1.2, h1.1, built_all_unpushed r hh.hlt hh.pinv c hb i hi', emit_sent_marked r c hc i hi' h1.2⟩
+  · have hsub : (r.emit.2.map (·.idxs)).Sublist ((r.built.map (·.idxs)).reverse) := by
+      unfold Ring.emit; simp only []
+      rw [← List.map_reverse]
+      exact (List.filter_sublist).map _
+    refine List.Pairwise.sublist hsub ?_
+    rw [List.pairwise_reverse]
+    exact hd.1.imp (fun h => disjoint_symm h)
+
+/-- the same for the emission made by `Rollover(sink)`: the collections consist of buckets that are
+unpushed in the ring right after the head moved (`rolled`), and are pushed in the result. -/
+theorem rollover_emit_at_most_once (n : Nat) (interval now : Int) (pushAfter agg : Nat) (hn : 0 < n) (hi : 0 < interval)
+    (ops : List Op) :
+    let r := (grun (newRing n interval now pushAfter agg, []) ops).1
+    ∀ c ∈ (r.rollover true).2.2, ∀ i ∈ c.idxs,
+      i ≠ r.rolled.head ∧ (r.rolled.bucket i).pushed = false ∧ ((r.rollover true).1.bucket i).pushed = true := by
+  intro r c hc i hi'
+  have hh : HInv r.rolled := rolled_hinv (grun_hinv (newRing_hinv n interval now pushAfter agg hn hi) ops)
+  rw [(rollover_true_eq r).2] at hc
+  rw [(rollover_true_eq r).1]
+  have hb := emit_sent_built r.rolled c hc
+  have h1 := (built_disjoint r.rolled hh.hlt).2 c hb i hi'
+  exact ⟨h1.1, built_all_unpushed r.rolled hh.hlt hh.pinv c hb i hi', emit_sent_marked r.rolled c hc i hi' h1.2⟩
+
+/-! ### late flows (known finding, kept) and a regression witness -/
 
 /-- ring of 7 buckets, pushAfter 0, bucketsToAggregate 2; key 0 sends 7 packets at t=1334, key 2
 sends 4 at t=1340; one rollover with a sink. -/
 def exR : Ring := ((newRing 7 5 1333 0 2).addFlow 0 1334 7).1
 def exR2 : Ring := (exR.addFlow 2 1340 4).1
 
-/-- The sink receives TWO collections, `[1333,1343)` and `[1328,1338)`, which overlap in the bucket
-`[1333,1338)`: key 0's 7 packets are emitted twice. (The walk in `EmitFlowCollections` only stops
-when the head index is strictly inside the next window; here it lands exactly on the head index and
-wraps around the ring.) -/
-theorem emit_at_most_once_false :
-    (exR2.rollover true).2.2.map (fun c => (c.start, c.stop, c.flows)) =
-      [(1333, 1343, [(0, 7), (2, 4)]), (1328, 1338, [(0, 7)])] := by decide
+/-- Regression witness for the repaired defect (/repo 6722529): with the walk bounded by the ring size the
+sink receives ONE collection here; the walk that only stopped when the head index was strictly inside
+the next window handed it two overlapping ones, `[1333,1343)` and `[1328,1338)`. -/
+theorem emit_wrap_config_single_collection :
+    (exR2.rollover true).2.2.map (fun c => (c.start, c.stop, c.flows)) = [(1328, 1338, [(0, 7)])] := by decide
 
 /-- `emitted_window_complete` fails for late flows: after that rollover the bucket `[1333,1338)` is
 marked pushed, a further flow of key 0 at t=1335 is still accepted (List counts it: 8) … -/
